@@ -105,6 +105,14 @@ fn case_strategy(_t: Tier) -> impl Strategy<Value = Case> {
                 });
             }
         }
+        // 1 history in 16: a message ends with a "delete an RRset" RR (class ANY, TTL 0) of type NULL
+        // that carries RDATA octets. Whatever the server makes of it (the live answer is C12's
+        // business), the journal it writes while doing so must remain one it can recover from
+        if salt % 16 == 3 && !hist.msgs.is_empty() {
+            let j = (salt as usize / 16) % hist.msgs.len();
+            let name = hist.msgs[j].updates.first().map(|r| r.name.clone()).unwrap_or_else(|| updates::name(1));
+            hist.msgs[j].updates.push(URr { name, rtype: 10, class: C_ANY, ttl: 0, rdata: vec![3, 1, 4, 1, 5] });
+        }
         Case { hist, salt, phase, glue, bulk: 0 }
     })
 }
@@ -570,6 +578,9 @@ fn body(c: &Case, rec: &mut Rec, what: What) -> CaseResult {
             z0.insert(&labels_of(&format!("h{i}.bulk.zone.test.")), T_A, 300, &[10, 9, (i >> 8) as u8, i as u8]);
         }
     }
+    if c.hist.msgs.iter().any(|m| m.updates.iter().any(|r| r.class == C_ANY && r.rtype == 10 && !r.rdata.is_empty())) {
+        rec.class("history:class-any-type-null-rr-with-rdata");
+    }
     if c.hist.msgs.iter().any(|m| m.updates.len() > 500) {
         rec.class("history:one-update-of-more-than-500-rrs");
     }
@@ -674,7 +685,7 @@ pub fn check() -> Option<Check> {
     Some(Check {
         id: "C14",
         level: "fault_enumeration",
-        rule: "C12 histories (1..6 signed UPDATE messages through ZoneHandler::update; apex delete-all redirected, serial 2^32-1 avoided) on a SqliteZoneHandler with an on-disk journal incl. the initial persist_to_journal dump (a quarter of the initial zones also hold out-of-zone glue; 1 dump case in 31 has more than 1000 records; 1 history in 25 holds one UPDATE that adds 501-900 records on top of its generated content); per history EVERY durable journal state is a stop point: the row count k after each SQLite commit as recorded by update/commit hooks on the journal's connection, which with this tree's autocommitted INSERTs is every k in 0..=rows (copy the file, DELETE rowid > k, restart through SqliteZoneHandler::try_from_config with that journal file in place - the path the server binary takes - and continue the remaining history on the handler it returns); journal_stop_twice additionally sweeps every stop point of the continuation for a third of the first-level points. Counters stop_points / recoveries / continuations give the number of (history, k) pairs. Non-trivial = distinct history containing at least one message that wrote >= 2 journal rows (so that some k lies strictly inside a message or between its update rows and its SOA row)",
+        rule: "C12 histories (1..6 signed UPDATE messages through ZoneHandler::update; apex delete-all redirected, serial 2^32-1 avoided) on a SqliteZoneHandler with an on-disk journal incl. the initial persist_to_journal dump (a quarter of the initial zones also hold out-of-zone glue; 1 dump case in 31 has more than 1000 records; 1 history in 25 holds one UPDATE that adds 501-900 records on top of its generated content; 1 in 16 has a message ending with a class-ANY type-NULL RR that carries RDATA); per history EVERY durable journal state is a stop point: the row count k after each SQLite commit as recorded by update/commit hooks on the journal's connection, which with this tree's autocommitted INSERTs is every k in 0..=rows (copy the file, DELETE rowid > k, restart through SqliteZoneHandler::try_from_config with that journal file in place - the path the server binary takes - and continue the remaining history on the handler it returns); journal_stop_twice additionally sweeps every stop point of the continuation for a third of the first-level points. Counters stop_points / recoveries / continuations give the number of (history, k) pairs. Non-trivial = distinct history containing at least one message that wrote >= 2 journal rows (so that some k lies strictly inside a message or between its update rows and its SOA row)",
         assumptions: vec![
             "a stop tears between SQLite commits (observed, not assumed); atomicity and durability of one SQLite commit are SQLite's and are trusted",
             "boundary states are those of the running server (C12 decides separately that they are the RFC 2136 states)",
